@@ -3,3 +3,4 @@ import PasskeyVerif.Props.C16
 import PasskeyVerif.Props.C10
 import PasskeyVerif.Props.C01
 import PasskeyVerif.Props.C12
+import PasskeyVerif.Props.C13
